@@ -58,3 +58,76 @@ BADA3_CALLS = {
 
 # --- ISA / BADA atmosphere, emission-index blocks (C12) ---------------------
 # Filled in by sa/rules/c12.py from the same sources; see that module.
+
+# Numbers of the standards themselves (NOT read from the repository):
+ISA_CONSTANTS = {
+    'T0': 288.15, 'p0': 101325.0, 'g0': 9.80665, 'R_air': 287.05287, 'kappa': 1.4,
+    'beta_tropo': -0.0065, 'h_p_tropo': 11000.0,
+}
+
+# ICAO Doc 7488 / BADA atmosphere model (BADA 3 user manual section 3.1)
+ISA = {
+    'T_tropo_branch': 'T0 + beta_tropo * altitude',
+    'T_strat_branch': 'T0 + beta_tropo * h_p_tropo',
+    'p_tropopause': 'p0 * ((T0 + beta_tropo * h_p_tropo) / T0) ** (-g0 / (beta_tropo * R_air))',
+    'p_tropo_branch': 'p0 * (TEMPERATURE / T0) ** (-g0 / (beta_tropo * R_air))',
+    'p_strat_branch': 'P_TROPO * exp(-g0 / (R_air * (T0 + beta_tropo * h_p_tropo)) * (altitude - h_p_tropo))',
+    'h_tropo_branch': 'T0 / beta_tropo * ((pressure / p0) ** (-beta_tropo * R_air / g0) - 1)',
+    'h_strat_branch': 'h_p_tropo - R_air * (T0 + beta_tropo * h_p_tropo) / g0 * log(pressure / P_TROPO)',
+    'density': 'pressure / (R_air * temperature)',
+    'mach': 'tas / sqrt(kappa * R_air * TEMPERATURE)',
+}
+
+# DuBois & Paynter 2006, eq. (40): Wf_SL = Wf_alt (theta^3.8 / delta) exp(0.2 M^2), per engine
+FFM2 = {
+    'Wf_SL': 'fuel_flow / n_eng * (Tamb / T_SL) ** z / (Pamb / P_SL) * exp(0.2 * mach_number ** 2)',
+    'defaults': {'z': 3.8, 'P_SL': 101325.0, 'T_SL': 288.15},
+}
+
+# BFFM2 NOx humidity / ambient correction, DuBois & Paynter eqs. (44)-(45), 60 % relative humidity.
+# (0.62198 and 0.0063 are the roundings used throughout the AEIC lineage of Boeing's 0.62197058 and 0.00634;
+# their effect is below 1e-3 relative and they are kept as the repository documents them.)
+BFFM2 = {
+    'theta_amb': 'Tamb / 288.15',
+    'delta_amb': 'Pamb / 101325.0',
+    'Pamb_psia': 'Pamb / 101325.0 * 14.696',
+    'beta': ('7.90298 * (1.0 - 373.16 / (Tamb + 0.01)) + 3.00571 + 5.02808 * log10(373.16 / (Tamb + 0.01)) '
+             '+ 1.3816e-7 * (1.0 - 10.0 ** (11.344 * (1.0 - (Tamb + 0.01) / 373.16))) '
+             '+ 8.1328e-3 * (10.0 ** (3.49149 * (1.0 - 373.16 / (Tamb + 0.01))) - 1.0)'),
+    'Pv': '0.014504 * 10.0 ** BETA',
+    'omega': '0.62198 * 0.6 * PV / (PAMB_PSIA - 0.6 * PV)',
+    'H': '-19.0 * (OMEGA - 0.0063)',
+    'correction': 'exp(HH) * (DELTA ** 1.02 / THETA ** 3.3) ** 0.5',
+    'NOxEI_sl': '10.0 ** (x_eval * slope + intercept)',
+}
+
+# BFFM2 HC/CO: ambient factor theta^3.3 / delta^1.02 (inverse of the NOx one, without humidity); ACRP low-thrust slope -52
+HCCO = {
+    'factor': '(Tamb / 288.15) ** 3.3 / (Pamb / 101325.0) ** 1.02',
+    'acrp': 'XEI * (1.0 + -52.0 * (FF - FF_IDLE))',
+    'x_horzline': '0.5 * (log10(EI_CLIMB) + log10(EI_TAKEOFF))',
+    'x_intercept_num': '2.0 * log10(FF_IDLE) * slope + log10(EI_CLIMB) + log10(EI_TAKEOFF) - 2.0 * log10(EI_IDLE)',
+}
+
+# ICAO Doc 9889 / FOA3: fuel sulfur.  EI_SO2 = FSC (1-eps) MW_SO2/MW_S 1e3 ; EI_SO4 = FSC eps MW_SO4/MW_S 1e3  [g/kg], FSC mass fraction
+SOX = {
+    'EI_SO2': 'FSC / 1.0e6 * (1 - EPS) * 64.0 / 32.0 * 1.0e3',
+    'EI_SO4': 'FSC / 1.0e6 * EPS * 96.0 / 32.0 * 1.0e3',
+    'MW': {'MW_SO2': 64.0, 'MW_SO4': 96.0, 'MW_S': 32.0},
+}
+
+# FOA3 volatile PM: delta(thrust%) [mg/g HC] at 7/30/85/100 % ; PMvol = delta * EI_HC / 1000
+FOA3 = {'thrust': [7, 30, 85, 100], 'delta': [6.17, 56.25, 76.0, 115.0], 'PMvol': 'DELTA * HCEI / 1000.0'}
+# fuel-flow method: OC_ic = 20 mg/kg, lube oil share 15 % (idle) / 50 % (above)
+PMVOL_FF = {'OCic': 20.0e-3, 'lube_low': 0.15, 'lube_high': 0.50, 'PMvol': 'OCIC / (1.0 - LUBE)'}
+
+# SCOPE11 (Agarwal et al. 2019): C_BC, k_slm, Q
+SCOPE11 = {
+    'C_BC': '0.6484 * exp(0.0766 * SN) / (1 + exp(-1.098 * (SN - 3.064)))',
+    'kslm_mtf': 'log((3.219 * CBC * (1 + BPR) * 1000 + 312.5) / (CBC * (1 + BPR) * 1000 + 42.6))',
+    'kslm_tf': 'log((3.219 * CBC * 1000 + 312.5) / (CBC * 1000 + 42.6))',
+    'Q_mtf': '0.776 * AFR * (1 + BPR) + 0.767',
+    'Q_tf': '0.776 * AFR + 0.767',
+    'AFR': [106, 83, 51, 45],
+    'SN_cap': 40,
+}
